@@ -241,6 +241,13 @@ func C12(r *core.Run) {
 			}
 		}
 	}
+	gensOf := func(root *inproc.Root, progs map[string]string) []string {
+		var g []string
+		for _, a := range []string{"123456", "123456-chain1", "123456-chain2", "123457"} {
+			g = append(g, root.Generate(progs[a]).Out)
+		}
+		return g
+	}
 	runAll := func(in in, shard, n int, o *out) {
 		wd := filepath.Join(in.Dir, fmt.Sprint("a", shard))
 		core.Tree{"regex-assembly/toolchain.yaml": c01Yaml, "regex-assembly/include/": "", "rules/": ""}.Materialise(wd)
@@ -284,6 +291,18 @@ func C12(r *core.Run) {
 						if c := root.Compare(a, false); c.Kind != inproc.OK || !strings.Contains(c.Stdout, "has not changed") {
 							fail("update-then-compare-unchanged", "compare "+a+" after update --all reports a change")
 						}
+					}
+					// the output mode in other spellings: either rejected, or it is the GitHub mode (which fails on a stale rule)
+					if idx%9 == 0 {
+						stale := rulesFile(ruleSpec{ID: "123456", Regex: gensOf(root, progs)[0] + "Z", Chain: []string{gensOf(root, progs)[1], gensOf(root, progs)[2]}}, ruleSpec{ID: "123457", Regex: gensOf(root, progs)[3]})
+						os.WriteFile(conf, []byte(stale), 0o644)
+						for _, sp := range []string{"GitHub", "GITHUB", "Github", "github ", "gitHub"} {
+							o.Transitions++
+							if res := core.RunCLI(r.Crs, wd, "", nil, "-d", wd, "-o", sp, "regex", "compare", "--all"); res.Exit == 0 {
+								fail("edit-detected-all", fmt.Sprintf("`-o %s regex compare --all` exits 0 although a stored operand differs from the generated regex", sp))
+							}
+						}
+						os.WriteFile(conf, []byte(want), 0o644)
 					}
 					if up2 := root.UpdateAll(); up2.Kind != inproc.OK {
 						fail("update-twice-noop", "second update --all fails")
